@@ -787,6 +787,7 @@ Clauses(g, o, ln, o2, g2) ==
     C15_dir |-> C15_dir(g, o2, ln), C15_views |-> C15_views(o, ln), C15_addrm |-> C15_addrm(g, o, ln, o2),
     C15_reach |-> C15_reach(g, ln),
     C18_confine |-> C18_confine(g, o, ln), C18_exact |-> C18_exact(g, ln), C18_killsig |-> C18_killsig(g, g2, o, o2),
+    C18_stopsig |-> C03_stopsig(g, g2, o, o2),      \* (a kill request without a signal designates the watcher's stop signal)
     C19_order |-> C19_order(g, o, ln), C19_pace |-> C19_pace(g, o, ln), C19_auto |-> C19_auto(g, o, ln, o2) ]
 
 ---------------------------------------------------------------------------
